@@ -26,7 +26,16 @@
 (*                          (order slock -> alock);                        *)
 (*     CallbackUnderAssoc - the released-bytes callback runs with `alock`  *)
 (*                          still held and writes.                         *)
-(* Bound to the code by the real-time family lockapi-rt: the read loop is  *)
+(*     ReentrantRLock     - the write loop, which reads the stream's        *)
+(*                          reliability parameters under the stream's READ   *)
+(*                          lock (checkPartialReliabilityStatus), takes the  *)
+(*                          read lock a second time inside: Go's RWMutex     *)
+(*                          turns new readers away once a writer waits, so   *)
+(*                          a setter arriving in between deadlocks both.     *)
+(* Bound to the code by the real-time families lockapi-rt and setters-rt:  *)
+(* (setters-rt: every setter / accessor of a stream hammered from several  *)
+(* goroutines while the write loop sends on that stream)                   *)
+(* lockapi-rt: the read loop is  *)
 (* parked inside an inbound handler (under `alock`, before it enters the   *)
 (* stream) while every public call on that stream is started; the only     *)
 (* verdict is a certified lock cycle.                                      *)
@@ -34,58 +43,76 @@
 EXTENDS Integers, FiniteSets, TLC
 
 CONSTANTS Rounds,               \* invocations per goroutine
-          HoldStreamInClose, CallbackUnderAssoc
+          HoldStreamInClose, CallbackUnderAssoc, ReentrantRLock
 
 RL == 0      \* read loop
 CL == 1      \* application: Stream.Close
 WR == 2      \* application: Stream.WriteSCTP (send fails: the roll-back path is taken too)
 RD == 3      \* application: ReadSCTP / accessors (stream lock only)
-Procs == {RL, CL, WR, RD}
+WL == 4      \* write loop: gathers a chunk of the stream, reading its parameters under the stream's read lock
+ST == 5      \* application: a setter (SetReliabilityParams ...): stream WRITE lock, announced before it is granted
+Procs == {RL, CL, WR, RD, WL, ST}
 
-VARIABLES alock, slock, wlock,  \* holder or -1
+VARIABLES alock, slock, wlock,  \* holder or -1 (slock: holder of the stream's WRITE lock)
+          srd,                  \* read holds on the stream lock (all by the write loop)
+          swait,                \* a writer is waiting for the stream lock: new readers are turned away (sync.RWMutex)
           pc, n
-vars == <<alock, slock, wlock, pc, n>>
+vars == <<alock, slock, wlock, srd, swait, pc, n>>
 
-Init == alock = -1 /\ slock = -1 /\ wlock = -1 /\ pc = [p \in Procs |-> "idle"] /\ n = [p \in Procs |-> 0]
+Init == alock = -1 /\ slock = -1 /\ wlock = -1 /\ srd = 0 /\ swait = FALSE /\ pc = [p \in Procs |-> "idle"] /\ n = [p \in Procs |-> 0]
 
 Go(p, from, to) == pc[p] = from /\ pc' = [pc EXCEPT ![p] = to]
 Fin(p, from)    == pc[p] = from /\ pc' = [pc EXCEPT ![p] = "idle"] /\ n' = [n EXCEPT ![p] = @ + 1]
 
 \* ---- read loop: one inbound packet with DATA for the stream and a SACK that releases bytes
-RLLock    == Go(RL, "idle", "locked") /\ n[RL] < Rounds /\ alock = -1 /\ alock' = RL /\ UNCHANGED <<slock, wlock, n>>
-RLStrIn   == Go(RL, "locked", "instream") /\ slock = -1 /\ slock' = RL /\ UNCHANGED <<alock, wlock, n>>
-RLStrOut  == Go(RL, "instream", "sack") /\ slock' = -1 /\ UNCHANGED <<alock, wlock, n>>
+RLLock    == Go(RL, "idle", "locked") /\ n[RL] < Rounds /\ alock = -1 /\ alock' = RL /\ UNCHANGED <<slock, wlock, srd, swait, n>>
+RLStrIn   == Go(RL, "locked", "instream") /\ slock = -1 /\ srd = 0 /\ slock' = RL /\ UNCHANGED <<alock, wlock, srd, swait, n>>
+RLStrOut  == Go(RL, "instream", "sack") /\ slock' = -1 /\ UNCHANGED <<alock, wlock, srd, swait, n>>
 \* released bytes: unlock the association, enter the stream, leave it, run the callback, lock again
-RLRelUnl  == Go(RL, "sack", "rel") /\ alock' = (IF CallbackUnderAssoc THEN alock ELSE -1) /\ UNCHANGED <<slock, wlock, n>>
-RLRelIn   == Go(RL, "rel", "relin") /\ slock = -1 /\ slock' = RL /\ UNCHANGED <<alock, wlock, n>>
-RLRelOut  == Go(RL, "relin", "cb") /\ slock' = -1 /\ UNCHANGED <<alock, wlock, n>>
+RLRelUnl  == Go(RL, "sack", "rel") /\ alock' = (IF CallbackUnderAssoc THEN alock ELSE -1) /\ UNCHANGED <<slock, wlock, srd, swait, n>>
+RLRelIn   == Go(RL, "rel", "relin") /\ slock = -1 /\ srd = 0 /\ slock' = RL /\ UNCHANGED <<alock, wlock, srd, swait, n>>
+RLRelOut  == Go(RL, "relin", "cb") /\ slock' = -1 /\ UNCHANGED <<alock, wlock, srd, swait, n>>
 \* the application's callback writes: it needs the association lock (sendPayloadData)
-RLCbWrite == Go(RL, "cb", "cbw") /\ alock = -1 /\ alock' = RL /\ UNCHANGED <<slock, wlock, n>>
-RLCbDone  == Go(RL, "cbw", "relock") /\ alock' = -1 /\ UNCHANGED <<slock, wlock, n>>
-RLRelock  == Go(RL, "relock", "tail") /\ alock = -1 /\ alock' = RL /\ UNCHANGED <<slock, wlock, n>>
-RLUnlock  == Fin(RL, "tail") /\ alock' = -1 /\ UNCHANGED <<slock, wlock>>
+RLCbWrite == Go(RL, "cb", "cbw") /\ alock = -1 /\ alock' = RL /\ UNCHANGED <<slock, wlock, srd, swait, n>>
+RLCbDone  == Go(RL, "cbw", "relock") /\ alock' = -1 /\ UNCHANGED <<slock, wlock, srd, swait, n>>
+RLRelock  == Go(RL, "relock", "tail") /\ alock = -1 /\ alock' = RL /\ UNCHANGED <<slock, wlock, srd, swait, n>>
+RLUnlock  == Fin(RL, "tail") /\ alock' = -1 /\ UNCHANGED <<slock, wlock, srd, swait>>
 
 \* ---- Stream.Close
-CLIn      == Go(CL, "idle", "state") /\ n[CL] < Rounds /\ slock = -1 /\ slock' = CL /\ UNCHANGED <<alock, wlock, n>>
-CLOut     == Go(CL, "state", "reset") /\ slock' = (IF HoldStreamInClose THEN slock ELSE -1) /\ UNCHANGED <<alock, wlock, n>>
-CLReset   == Go(CL, "reset", "inreset") /\ alock = -1 /\ alock' = CL /\ UNCHANGED <<slock, wlock, n>>
-CLDone    == Fin(CL, "inreset") /\ alock' = -1 /\ slock' = (IF slock = CL THEN -1 ELSE slock) /\ UNCHANGED wlock
+CLIn      == Go(CL, "idle", "state") /\ n[CL] < Rounds /\ slock = -1 /\ srd = 0 /\ slock' = CL /\ UNCHANGED <<alock, wlock, srd, swait, n>>
+CLOut     == Go(CL, "state", "reset") /\ slock' = (IF HoldStreamInClose THEN slock ELSE -1) /\ UNCHANGED <<alock, wlock, srd, swait, n>>
+CLReset   == Go(CL, "reset", "inreset") /\ alock = -1 /\ alock' = CL /\ UNCHANGED <<slock, wlock, srd, swait, n>>
+CLDone    == Fin(CL, "inreset") /\ alock' = -1 /\ slock' = (IF slock = CL THEN -1 ELSE slock) /\ UNCHANGED <<wlock, srd, swait>>
 
 \* ---- Stream.WriteSCTP
-WRLock    == Go(WR, "idle", "w") /\ n[WR] < Rounds /\ wlock = -1 /\ wlock' = WR /\ UNCHANGED <<alock, slock, n>>
-WRPackIn  == Go(WR, "w", "pack") /\ slock = -1 /\ slock' = WR /\ UNCHANGED <<alock, wlock, n>>
-WRPackOut == Go(WR, "pack", "send") /\ slock' = -1 /\ UNCHANGED <<alock, wlock, n>>
-WRSendIn  == Go(WR, "send", "insend") /\ alock = -1 /\ alock' = WR /\ UNCHANGED <<slock, wlock, n>>
-WRSendOut == Go(WR, "insend", "roll") /\ alock' = -1 /\ UNCHANGED <<slock, wlock, n>>
-WRRollIn  == Go(WR, "roll", "inroll") /\ slock = -1 /\ slock' = WR /\ UNCHANGED <<alock, wlock, n>>
-WRRollOut == Go(WR, "inroll", "wend") /\ slock' = -1 /\ UNCHANGED <<alock, wlock, n>>
-WRUnlock  == Fin(WR, "wend") /\ wlock' = -1 /\ UNCHANGED <<alock, slock>>
+WRLock    == Go(WR, "idle", "w") /\ n[WR] < Rounds /\ wlock = -1 /\ wlock' = WR /\ UNCHANGED <<alock, slock, srd, swait, n>>
+WRPackIn  == Go(WR, "w", "pack") /\ slock = -1 /\ srd = 0 /\ slock' = WR /\ UNCHANGED <<alock, wlock, srd, swait, n>>
+WRPackOut == Go(WR, "pack", "send") /\ slock' = -1 /\ UNCHANGED <<alock, wlock, srd, swait, n>>
+WRSendIn  == Go(WR, "send", "insend") /\ alock = -1 /\ alock' = WR /\ UNCHANGED <<slock, wlock, srd, swait, n>>
+WRSendOut == Go(WR, "insend", "roll") /\ alock' = -1 /\ UNCHANGED <<slock, wlock, srd, swait, n>>
+WRRollIn  == Go(WR, "roll", "inroll") /\ slock = -1 /\ srd = 0 /\ slock' = WR /\ UNCHANGED <<alock, wlock, srd, swait, n>>
+WRRollOut == Go(WR, "inroll", "wend") /\ slock' = -1 /\ UNCHANGED <<alock, wlock, srd, swait, n>>
+WRUnlock  == Fin(WR, "wend") /\ wlock' = -1 /\ UNCHANGED <<alock, slock, srd, swait>>
 
 \* ---- ReadSCTP / accessors
-RDIn      == Go(RD, "idle", "r") /\ n[RD] < Rounds /\ slock = -1 /\ slock' = RD /\ UNCHANGED <<alock, wlock, n>>
-RDOut     == Fin(RD, "r") /\ slock' = -1 /\ UNCHANGED <<alock, wlock>>
+RDIn      == Go(RD, "idle", "r") /\ n[RD] < Rounds /\ slock = -1 /\ srd = 0 /\ slock' = RD /\ UNCHANGED <<alock, wlock, srd, swait, n>>
+RDOut     == Fin(RD, "r") /\ slock' = -1 /\ UNCHANGED <<alock, wlock, srd, swait>>
 
-Next == RLLock \/ RLStrIn \/ RLStrOut \/ RLRelUnl \/ RLRelIn \/ RLRelOut \/ RLCbWrite \/ RLCbDone \/ RLRelock \/ RLUnlock
+\* ---- write loop: association lock; stream READ lock (once, or -- negative control -- twice); unlock
+WLLock    == Go(WL, "idle", "g") /\ n[WL] < Rounds /\ alock = -1 /\ alock' = WL /\ UNCHANGED <<slock, wlock, srd, swait, n>>
+WLRead1   == Go(WL, "g", "r1") /\ slock = -1 /\ ~swait /\ srd' = srd + 1 /\ UNCHANGED <<alock, slock, wlock, swait, n>>
+WLRead2   == Go(WL, "r1", "r2") /\ (IF ReentrantRLock THEN slock = -1 /\ ~swait /\ srd' = srd + 1 ELSE srd' = srd)
+             /\ UNCHANGED <<alock, slock, wlock, swait, n>>
+WLReadOut == Go(WL, "r2", "gend") /\ srd' = 0 /\ UNCHANGED <<alock, slock, wlock, swait, n>>
+WLUnlock  == Fin(WL, "gend") /\ alock' = -1 /\ UNCHANGED <<slock, wlock, srd, swait>>
+
+\* ---- a setter: announces itself, is granted the write lock when nobody reads or writes
+STRequest == Go(ST, "idle", "want") /\ n[ST] < Rounds /\ ~swait /\ swait' = TRUE /\ UNCHANGED <<alock, slock, wlock, srd, n>>
+STAcquire == Go(ST, "want", "set") /\ slock = -1 /\ srd = 0 /\ slock' = ST /\ swait' = FALSE /\ UNCHANGED <<alock, wlock, srd, n>>
+STRelease == Fin(ST, "set") /\ slock' = -1 /\ UNCHANGED <<alock, wlock, srd, swait>>
+
+Next == WLLock \/ WLRead1 \/ WLRead2 \/ WLReadOut \/ WLUnlock \/ STRequest \/ STAcquire \/ STRelease
+        \/ RLLock \/ RLStrIn \/ RLStrOut \/ RLRelUnl \/ RLRelIn \/ RLRelOut \/ RLCbWrite \/ RLCbDone \/ RLRelock \/ RLUnlock
         \/ CLIn \/ CLOut \/ CLReset \/ CLDone
         \/ WRLock \/ WRPackIn \/ WRPackOut \/ WRSendIn \/ WRSendOut \/ WRRollIn \/ WRRollOut \/ WRUnlock
         \/ RDIn \/ RDOut
@@ -95,7 +122,7 @@ Spec == Init /\ [][Next]_vars
 NoDeadlock == Done \/ ENABLED Next
 \* the hierarchy: nobody who holds a stream lock waits for the association lock
 LockOrder == \A p \in Procs : slock = p => pc[p] \notin {"reset", "send", "cb", "relock"}
-Mutex == /\ (alock # -1 => pc[alock] \in {"locked", "instream", "sack", "rel", "relin", "cb", "cbw", "tail", "inreset", "insend"})
-         /\ (slock # -1 => pc[slock] \in {"instream", "relin", "state", "reset", "inreset", "pack", "inroll", "r"})
+Mutex == /\ (alock # -1 => pc[alock] \in {"locked", "instream", "sack", "rel", "relin", "cb", "cbw", "tail", "inreset", "insend", "g", "r1", "r2", "gend"})
+         /\ (slock # -1 => pc[slock] \in {"instream", "relin", "state", "reset", "inreset", "pack", "inroll", "r", "set"} /\ srd = 0)
          /\ (wlock # -1 => pc[wlock] \in {"w", "pack", "send", "insend", "roll", "inroll", "wend"})
 =============================================================================
